@@ -46,6 +46,17 @@ def build_catalogue(seed=0):
     for n in range(2, 7):
         for i in sorted({0, kcount[n] - 1, rng.randrange(kcount[n]), rng.randrange(kcount[n]), rng.randrange(kcount[n])}):
             cat.append({"fn": "class_graph", "n": n, "id": i})
+    # complete tomography round trips (circuits + fitter) on exact statistics of a fixed state: n <= 4, all configurations
+    for (n, name) in coupling.CONFIGS:
+        if n <= 4:
+            ops = []
+            for q in range(n):
+                ops.append(["ry", [q], [0.4 + 0.37 * q]])
+                ops.append(["rz", [q], [1.1 + 0.23 * q]])
+            for q in range(n - 1):
+                ops.append(["cx", [q, q + 1]])
+                ops.append(["rx", [q + 1], [0.9 - 0.11 * q]])
+            cat.append({"fn": "tomo_fit", "n": n, "name": name, "state": ops})
     cat.append({"fn": "available"})
     return cat
 
@@ -123,6 +134,15 @@ def execute(spec, inp=None):
         return L.tomo.full_state_tomography_circuits(inp["circuit"], spec["name"], inp["qubits"])
     if fn == "stabmeas":
         return L.tomo.stabilizer_measurement_circuit(inp["circuit"], inp["stab"], spec["name"], inp["qubits"])
+    if fn == "tomo_fit":
+        from gen import tomo
+        from oracle import dense
+        n = spec["n"]
+        prep = libif.build_circuit(n, tomo.ops_tuple(spec["state"]))
+        circs = L.tomo.full_state_tomography_circuits(prep, spec["name"])
+        counts = [tomo.exact_counts([(1.0, dense.run(tomo.measurement_ops(qc), n))], n, keep_zero=False) for qc in circs]
+        ev = L.tomo.FullStateTomographyFitter(tomo.FakeResult(counts), circs).expectation_values()
+        return sorted([str(k), round(float(v), 9)] for k, v in ev.items())
     raise KeyError(fn)
 
 
